@@ -109,3 +109,6 @@ impl BaseSettings {
     #[cfg(feature = "flate2")]
     basic_setter!(set_allow_compression, allow_compression, bool);
 }
+
+#[cfg(kani)]
+include!(concat!(env!("ATTOHTTPC_VERIF_HARNESS"), "/settings.rs"));
